@@ -40,15 +40,18 @@
   Scope.  Every theorem is about one collector.  "Teardown in main and worker threads" is the same `Op.teardown`
   (`Cello_Exit` and `Thread_Init_Run` both end in `GC_Del`); that a `del` issued by another thread is a no-op on this
   collector and that the object is then finalised by its own thread's teardown is `C13_foreign_del` (Props/C13.lean, a
-  different model).  The collector's own tables (`entries`, `freelist`) and the per-thread wrapper/TLS/Exception objects
-  are not in the ledger model: "all memory returned by teardown" is checked for them by the harness's block accounting
-  and ASan's leak check only.
+  different model).  The collector's own tables (`entries`, `freelist`) are not in the ledger model; they have a model of
+  their own (Cello/LifecycleMem.lean, last section of this file: `C06_collector_tables_released`), run on the statement
+  lists the translator reads from `GC_Rehash`, `GC_Sweep`, `GC_Del`; the order of `Thread_Init_Run`, `Cello_Exit` and the
+  `main` macro is checked on extracted step lists (`C06_thread_setup_teardown_order`, `C06_main_setup_teardown_order`).
+  The per-thread wrapper/TLS/Exception objects' own blocks are covered by ASan only.
 -/
 import CelloProofs.Lemmas.LifeInv
 import CelloProofs.Lemmas.LifeSafe
 import CelloProofs.Lemmas.LifeNull
 import CelloProofs.Lemmas.LifeX
 import Cello.LifecycleSrc
+import CelloProofs.Lemmas.LifeMem
 
 namespace Cello.Life
 
@@ -926,5 +929,68 @@ theorem C06_dtor_raises_routes_refuted :
     histories without a raising destructor (`finalX_core`) -/
 example : (finalX (raiseWitness ++ [Op.del 3 .std, Op.collect [] [], Op.teardown []])).core.log =
     [.fin 1, .free 1, .fin 2, .fin 3, .free 3] := by decide
+
+/-! ## extension round: the collector's own tables and the set-up / teardown paths
+
+  `GC_Rehash`, `GC_Sweep` and `GC_Del` as statement lists read from the source (`CelloGen.Life.rehashProg/sweepProg/gcDelProg`)
+  run on the three pointers the collector owns (Cello/LifecycleMem.lean); `Thread_Init_Run`, `Cello_Exit` and the `main` macro
+  as step lists (`threadRunProg/exitProg/mainProg`). -/
+section CollectorMemory
+open Mem CelloGen.Life
+
+/-- **the collector returns its own tables.**  For every sequence of events of a collector's working life — registrations
+    and removals that rehash or not, sweeps that shrink the table or not, nested in any way (a destructor that allocates
+    or deletes starts them from inside a release loop) — followed by `GC_Del` (during whose sweep the destructors may again
+    do all of that): every block the collector allocated for its entry table and its pending list has been freed, none
+    twice, no `free` or `realloc` was applied to a dangling pointer, and the thread no longer refers to the collector.
+    The statement lists are the ones the translator reads from `GC_Rehash`, `GC_Sweep` and `GC_Del`. -/
+theorem C06_collector_tables_released (evs inner : List Mem.Ev) (sh : Bool)
+    (hevs : ∀ e ∈ evs, e.working = true) (hinner : ∀ e ∈ inner, e.working = true) :
+    (Mem.run Progs.source MSt.init (evs ++ [.delBegin sh] ++ inner ++ [.delEnd])).released = true := by
+  rw [Mem.run_append]
+  apply delEnd_released
+  apply run_good
+  · intro e he
+    simp only [List.append_assoc, List.mem_append, List.mem_cons, List.mem_nil_iff, or_false] at he
+    rcases he with he | he | he
+    · exact working_ne_delEnd (hevs e he)
+    · subst he; intro h; cases h
+    · exact working_ne_delEnd (hinner e he)
+  · decide
+
+/-- between operations the collector holds at most one entry table and at most one pending list, nothing is lost and
+    nothing was freed twice — whatever the events so far -/
+theorem C06_collector_tables_while_working (evs : List Mem.Ev) (hevs : ∀ e ∈ evs, e.working = true) :
+    let s := Mem.run Progs.source MSt.init evs
+    s.bad = false ∧ s.leaked = false ∧ s.liveEntries ≤ 1 ∧ s.liveFreelist ≤ 1 := by
+  have h := run_good evs MSt.init (fun e he => working_ne_delEnd (hevs e he)) (by decide)
+  generalize Mem.run Progs.source MSt.init evs = s at h
+  obtain ⟨e, f, o, a, l, b, t⟩ := s
+  revert h; revert e f o a l b t; decide
+
+/-- `Thread_Init_Run`: the collector and the exception record exist before the thread's function runs; the argument tuple
+    goes after the function returned; `GC_Del` (which runs user destructors) still finds the exception record; the
+    exception record goes last; nothing is left -/
+theorem C06_thread_setup_teardown_order : Mem.threadLife = ⟨false, false, false, false, true, true⟩ := by decide
+
+/-- the `main` macro creates the collector, registers `Cello_Exit`, which deletes it (the main thread's exception
+    record is static) -/
+theorem C06_main_setup_teardown_order : Mem.mainLife = ⟨false, true, false, true, true, true⟩ := by decide
+
+-- non-vacuity: a history with a growing table, a sweep with a nested registration and removal, teardown with a shrink
+example : (Mem.run Progs.source MSt.init
+    [.set true, .set false, .sweepBegin false, .set true, .rem true, .sweepEnd, .rem false, .delBegin true, .rem true, .delEnd]) =
+    ⟨.dangling, .null, .null, false, false, false, false⟩ := by decide
+
+/-- the statements matter: without `gc->freelist = NULL` at the end of `GC_Sweep`, `GC_Del` frees the pending list twice;
+    without `free(gc->entries)` in `GC_Del` the entry table is left; without `free(old_entries)` every rehash loses a table -/
+theorem C06_collector_tables_variants_refuted :
+    (Mem.run { Progs.source with sweep := sweepProg.filter (· != .nullFreelist) } MSt.init
+      [.set true, .sweepBegin false, .sweepEnd, .delBegin false, .delEnd]).bad = true ∧
+    (Mem.run { Progs.source with del := gcDelProg.filter (· != .freeEntries) } MSt.init
+      [.set true, .delBegin false, .delEnd]).released = false ∧
+    (Mem.run { Progs.source with rehash := rehashProg.filter (· != .freeOld) } MSt.init
+      [.set true, .set true]).leaked = true := by decide
+end CollectorMemory
 
 end Cello.Life
